@@ -239,6 +239,18 @@ def combo_case(case):
         model = M.make(name) if name != "Kauri" else M.make("Kauri", min_samples_leaf=3, min_samples_split=6)
         err, steps = _fit_probe(model, bad)
         _judge(err, steps, model, False, v, dict(target=name, param="X", value=tag, expect="out", history="after refusals" if kind != "data" else "none"), {"data": tag, "_probe_X": X})
+    elif kind == "missing_matrix":
+        name, shape = arg
+        Xs = seams.tiny_data(shape[0], shape[1], seed + 83)
+        spec = {"metric": "precomputed"} if name in M.HAS_METRIC else {"kernel": "precomputed"}
+        model = M.make(name, **spec)
+        err, steps = _fit_probe(model, Xs)
+        w_ = dict(target=name, param="kernel/metric='precomputed' without a matrix", value=f"X of shape {shape}", expect="out")
+        # refused before any training step and without labels_ (whether the initialised, untrained weights may remain is not settled by the property)
+        if err is None or steps or hasattr(model, "labels_"):
+            v.append(violation("out_of_domain_value_accepted", {"shape": list(shape), "error": repr(err), "optimiser_steps": steps, "has_labels_": hasattr(model, "labels_")}, **w_))
+        elif not isinstance(err, (ValueError, TypeError)):
+            v.append(violation("rejected_with_an_error_outside_the_ValueError_TypeError_family", {"error": repr(err)[:200]}, **w_))
     elif kind in ("before_fit", "before_fit_transported"):
         name, call = arg
         model = M.make(name)
@@ -394,6 +406,7 @@ def explorers(tier, seed):
                 (["get_selection"] if name in M.SPARSE else []) + (["find_active_points"] if name == "Douglas" else [])
         c3 += [("before_fit", (name, c), seed) for c in calls]
         c3 += [("before_fit_transported", (name, c), seed + s_) for c in calls for s_ in (0, 1)]
+    c3 += [("missing_matrix", (name, shape), seed) for name in M.HAS_KERNEL + M.HAS_METRIC if name != "Kauri" for shape in ((6, 3), (5, 5), (4, 4), (6, 6))]
     c4 = []
     for fn, (base, dom) in FUNCS.items():
         for param, d in dom.items():
